@@ -121,10 +121,12 @@ def member_trace(tid, member_case, rec_member, *, collecting, records):
     }
 
 
-def setup_project(name, records, groups, delimiter=",", quotechar='"'):
+def setup_project(name, records, groups, delimiter=",", quotechar='"', policy=None):
     """fresh scratch project with one named file 'data' and the given named-paths groups
     groups: {group name: [csvpath text, ...]} (texts use the file name placeholder $data)"""
     scratch.fresh_subdir(name)
+    if policy:
+        scratch.set_policy(policy)      # the csvpath error policy of this project's configuration
     os.makedirs("src", exist_ok=True)
     runner.write_csv("src/data.csv", records, delimiter=delimiter, quotechar=quotechar)
     cp = pharness.new_csvpaths(delimiter=delimiter, quotechar=quotechar)
